@@ -12,12 +12,12 @@ import (
 // writeFuncImplArgChecks). progen's families have unsigned refined arguments
 // with a zero lower bound only; here every integer base type (signed and
 // unsigned) is crossed with the bound shapes [0 ..= K], [L ..= K] (L > 0),
-// [..= K], [L ..] and - for signed types - [-L ..= K] and a lower bound equal to
+// [..= K], [L ..=] and - for signed types - [-L ..= K] and a lower bound equal to
 // the type's minimum, and with impure / pure / coroutine methods. The body uses
 // the argument as an index (when the refinement proves it in range of an
-// 8-element array), as a divisor (when it excludes 0) and stores it into a field
-// of the same refined type, so that a check that lets a bad value through is
-// also visible as a sanitizer report or a value the field's type excludes.
+// 8-element array), as a divisor (when it excludes 0) and stores it into a
+// field, so that a check that lets a bad value through is also visible as a
+// sanitizer report or a changed field.
 func argcheck() *cdrive.FlatFamily {
 	f := &cdrive.FlatFamily{FamName: "argcheck"}
 	types := []struct {
@@ -37,16 +37,16 @@ func argcheck() *cdrive.FlatFamily {
 		shapes := []shape{
 			{"[0 ..= 7]", true, false},
 			{"[1 ..= 7]", true, true},
-			{"[3 ..]", false, true},
+			{"[3 ..=]", false, true},
 		}
 		if ty.signed {
-			shapes = append(shapes, shape{"[..= 7]", false, false}, shape{"[-3 ..= 4]", false, false}, shape{"[" + tmin + " ..= 7]", false, false}, shape{"[-5 ..= -2]", false, true})
+			shapes = append(shapes, shape{"[..= 7]", false, false}, shape{"[-3 ..= 4]", false, false}, shape{"[" + tmin + " ..= 7]", false, false}, shape{"[-5 ..= -2]", false, false})
 		} else {
 			shapes = append(shapes, shape{"[..= 7]", true, false})
 		}
 		for _, sh := range shapes {
 			rt := "base." + ty.name + sh.ref
-			fields := []string{"q : " + rt, "d : base." + ty.name, "r : base.u8", "a : array[8] base.u8"}
+			fields := []string{"q : base." + ty.name, "d : base." + ty.name, "r : base.u8", "a : array[8] base.u8"}
 			var body []string
 			if sh.index {
 				body = append(body, "this.r = this.a[args.x]", "this.a[args.x] = 5")
